@@ -231,7 +231,7 @@ def _fixture_checks(ctx, R, G):
                 a["type"], ma.element.mass, a["mass"]), {"kind": "fixture"})
     info["max_mass_table_difference_Da"] = worst
     thr = [float(v) for v in G.NUM_VALUES["mass"][0]] + [float(x) for r in G.NUM_VALUES["mass"][3] for x in r] + \
-          [float(v) for v in G.NUM_VALUES["mass"][4]] + [13.0, 5.5, 20.0]
+          [float(v) for v in G.NUM_VALUES["mass"][4]] + [13.0, 5.5, 21.0]
     masses = set(R.MASS.values()) | set(ma.element.mass for ma in _TOP.atoms)
     info["min_mass_threshold_margin_Da"] = min(abs(t - m) for t in thr for m in masses)
     assert info["min_mass_threshold_margin_Da"] >= 0.4
@@ -312,6 +312,16 @@ def _space(ctx, R, G):
         add(s, "program-shared", ("d2", k) if k is not None else None)
     stats["depth2_trees"] = len(t2)
     stats["depth2_strings"] = len(items) - n0
+
+    to = G.oplike_trees(ctx.seed)
+    po = G.programs(to, ("min", "leafparen"))
+    selfcheck(to, po, "oplike")
+    n0 = len(items)
+    for s, k, _pres in po:
+        add(s, "program-shared", ("ol", k) if k is not None else None)
+    stats["operator_like_literal_trees"] = len(to)
+    stats["operator_like_literal_depth2_strings"] = len(items) - n0
+    stats["operator_like_words"] = list(G.OPLIKE_WORDS)
 
     if ctx.quick:
         lv3 = G.leaves(G.reps("3q", ctx.seed))
